@@ -12,6 +12,7 @@
 #include "serial_codec.hpp"
 #include "serial_objects.hpp"
 #include "serial_probes.hpp"
+#include "serial_flags.hpp"
 
 #include <filesystem>
 #include <iostream>
@@ -61,32 +62,71 @@ template <class T> void corrType(Ctx& c, int reps) {
     }
 }
 
+// the property's statement on ONE combinator value
+template <class T> void propValue(Ctx& c, const T& x, const std::string& key, bool brief = false) {
+    const std::string ty = Codec<T>::ty();
+    Packer packer; Ser ser(packer);
+    ser.pack(x);
+    const std::vector<char> buf = ser.buffer();
+    const size_t posPack = ser.position();
+    T y{};
+    ser.unpack(y);
+    const size_t posUnpack = ser.position();
+    const std::string sx = Codec<T>::show(x, true), sy = Codec<T>::show(y, true);
+    // a large value is named by its size, not printed
+    const std::string vx = brief ? "<" + std::to_string(sx.size()) + " characters>" : sx, vy = brief ? "<" + std::to_string(sy.size()) + " characters>" : sy;
+    if (posPack != buf.size()) c.plog->fail(key, "PACK left position " + std::to_string(posPack) + " in a buffer of " + std::to_string(buf.size()) + " (PACKSIZE disagrees with PACK) value=" + vx);
+    else if (posUnpack != buf.size()) c.plog->fail(key, "UNPACK consumed " + std::to_string(posUnpack) + " of " + std::to_string(buf.size()) + " bytes value=" + vx);
+    else if (sx != sy) c.plog->fail(key, "object differs after round trip: packed " + vx + " unpacked " + vy);
+    else {
+        Packer p2; Ser ser2(p2);
+        ser2.pack(y);
+        if (ser2.buffer().size() != buf.size()) c.plog->fail(key, "re-packed length " + std::to_string(ser2.buffer().size()) + " != " + std::to_string(buf.size()) + " value=" + vx);
+        else if (!hasUnordered(ty) && ser2.buffer() != buf) c.plog->fail(key, "re-packed bytes differ value=" + vx);
+        else c.plog->ok();
+    }
+    c.pstats["combinator"]++;
+}
+
+// a bitset's descriptor is that of its wire integer (p8); the failure key names the C++ type
+template <class T> struct BitsetWidth { static constexpr std::size_t value = 0; };
+template <std::size_t N> struct BitsetWidth<std::bitset<N>> { static constexpr std::size_t value = N; };
+
 template <class T> void propType(Ctx& c, int reps) {
     const std::string ty = Codec<T>::ty();
+    const std::string key = BitsetWidth<T>::value ? "combinator.bitset" + std::to_string(BitsetWidth<T>::value) : "combinator." + ty;
     for (int i = 0; i < reps; ++i) {
         GenCfg cfg; cfg.maxLen = (i % 5 == 4) ? 4 * c.maxLen : c.maxLen;
-        T x = Codec<T>::gen(c.rng, cfg);
-        Packer packer; Ser ser(packer);
-        ser.pack(x);
-        const std::vector<char> buf = ser.buffer();
-        const size_t posPack = ser.position();
-        T y{};
-        ser.unpack(y);
-        const size_t posUnpack = ser.position();
-        const std::string sx = Codec<T>::show(x, true), sy = Codec<T>::show(y, true);
-        const std::string key = "combinator." + ty;
-        if (posPack != buf.size()) c.plog->fail(key, "PACK left position " + std::to_string(posPack) + " in a buffer of " + std::to_string(buf.size()) + " (PACKSIZE disagrees with PACK) value=" + sx);
-        else if (posUnpack != buf.size()) c.plog->fail(key, "UNPACK consumed " + std::to_string(posUnpack) + " of " + std::to_string(buf.size()) + " bytes value=" + sx);
-        else if (sx != sy) c.plog->fail(key, "object differs after round trip: packed " + sx + " unpacked " + sy);
-        else {
-            Packer p2; Ser ser2(p2);
-            ser2.pack(y);
-            if (ser2.buffer().size() != buf.size()) c.plog->fail(key, "re-packed length " + std::to_string(ser2.buffer().size()) + " != " + std::to_string(buf.size()) + " value=" + sx);
-            else if (!hasUnordered(ty) && ser2.buffer() != buf) c.plog->fail(key, "re-packed bytes differ value=" + sx);
-            else c.plog->ok();
-        }
-        c.pstats["combinator"]++;
+        propValue<T>(c, Codec<T>::gen(c.rng, cfg), key);
     }
+}
+
+// Every width of a bitset, bit by bit: none, all, each single bit, each complement of a single bit.  (The random
+// menu above draws these too; this sweep does not depend on the seed.)
+template <std::size_t N> void propBitset(Ctx& c) {
+    const std::string key = "combinator.bitset" + std::to_string(N);
+    std::bitset<N> none, all; all.set();
+    propValue<std::bitset<N>>(c, none, key); propValue<std::bitset<N>>(c, all, key);
+    for (std::size_t i = 0; i < N; ++i) {
+        std::bitset<N> one; one.set(i);
+        propValue<std::bitset<N>>(c, one, key); propValue<std::bitset<N>>(c, ~one, key);
+        c.pstats["combinator.bitset.bits"]++;
+    }
+}
+
+// Lengths beyond 16 bits: every length field on the wire is a size_t; a container or string longer than 65 535 (and,
+// thorough tier, a string longer than 2^24) shows a narrower one.  (2^32 elements are out of reach of a test run.)
+inline void propBig(Ctx& c, bool thorough) {
+    const std::size_t n = 65536 + 4464 + c.rng.below(1000);
+    { std::string s(n, 'x'); for (auto& ch : s) ch = static_cast<char>('A' + c.rng.below(26)); propValue<std::string>(c, s, "combinator.big.s", true); }
+    { std::vector<int> v(n); for (auto& x : v) x = static_cast<int>(c.rng.next()); propValue<std::vector<int>>(c, v, "combinator.big.v(i4)", true); }
+    { std::vector<bool> v(n); for (std::size_t i = 0; i < n; ++i) v[i] = c.rng.coin(); propValue<std::vector<bool>>(c, v, "combinator.big.B", true); }
+    { std::vector<std::string> v(n); for (auto& x : v) x = std::string(1, static_cast<char>('a' + c.rng.below(26))); propValue<std::vector<std::string>>(c, v, "combinator.big.v(s)", true); }
+    { std::set<int> v; for (std::size_t i = 0; i < n; ++i) v.insert(static_cast<int>(i * 3)); propValue<std::set<int>>(c, v, "combinator.big.S(i4)", true); }
+    { std::map<int, double> v; for (std::size_t i = 0; i < n; ++i) v[static_cast<int>(i)] = static_cast<double>(i); propValue<std::map<int, double>>(c, v, "combinator.big.M(i4,p8)", true); }
+    { std::unordered_map<int, std::vector<std::string>> v; for (std::size_t i = 0; i < n; ++i) v[static_cast<int>(i)]; propValue<std::unordered_map<int, std::vector<std::string>>>(c, v, "combinator.big.H", true); }
+    if (thorough) { std::string s((std::size_t{1} << 24) + 17, 'y'); propValue<std::string>(c, s, "combinator.big.s24", true); }
+    c.pstats["combinator.big"] += 7;
 }
 
 // ---- pointer layer: types holding shared_ptr (model: Model/SerialGraph.lean) ------------------------
@@ -196,7 +236,9 @@ template <class T> void propGraph(Ctx& c, int reps) {
 
 #define SERIAL_MENU(X) \
     X(int) X(long) X(short) X(unsigned char) X(std::size_t) X(unsigned int) X(double) X(float) X(bool) X(Colour) X(Pod16) \
-    X(Opm::time_point) X(std::bitset<3>) X(std::bitset<10>) \
+    X(Opm::time_point) X(std::bitset<3>) X(std::bitset<4>) X(std::bitset<10>) X(std::bitset<17>) \
+    X(std::bitset<1>) X(std::bitset<8>) X(std::bitset<16>) X(std::bitset<32>) X(std::bitset<33>) X(std::bitset<64>) \
+    X(std::optional<std::bitset<17>>) X(std::vector<std::bitset<33>>) X(std::map<int, std::bitset<64>>) X(std::array<bool, 3>) X(std::array<bool, 17>) \
     X(std::string) \
     X(std::vector<int>) X(std::vector<double>) X(std::vector<Pod16>) X(std::vector<std::string>) X(std::vector<bool>) \
     X(std::vector<std::vector<int>>) X(std::vector<std::vector<std::string>>) X(std::vector<std::vector<bool>>) \
@@ -251,15 +293,28 @@ int main(int argc, char** argv) {
         c.plog = &plog;
         const int reps = thorough ? 500 : 20;
         c.maxLen = 5;
+        {   // every bit of every bitset / mask word of the serialised classes: first (a failure here names the class and the
+            // deck text), with a random stream of its own
+            vh::Rng fr(seed ^ 0xf1a9f1a9ull);
+            sf::probeFlagWords(fr, plog, c.pstats, thorough);
+        }
 #define X(...) propType<__VA_ARGS__>(c, reps);
         SERIAL_MENU(X)
 #undef X
 #define X(...) propGraph<__VA_ARGS__>(c, reps);
         SERIAL_GRAPH_MENU(X)
 #undef X
+        {   // directed codec probes; their own random stream, so that the object generators below keep theirs
+            Ctx d(seed ^ 0x5eed0b17ull); d.plog = &plog;
+            propBitset<1>(d); propBitset<3>(d); propBitset<4>(d); propBitset<8>(d); propBitset<10>(d); propBitset<16>(d);
+            propBitset<17>(d); propBitset<32>(d); propBitset<33>(d); propBitset<64>(d);
+            propBig(d, thorough);
+            for (auto& kv : d.pstats) c.pstats[kv.first] += kv.second;
+        }
         so::runObjects(c.rng, plog, c.pstats, thorough, outdir);
         sp::probeSlaveMode(c.rng, plog, c.pstats, thorough ? 60 : 6);
         sp::probeRestartNetworkPressures(c.rng, plog, c.pstats, thorough ? 40 : 4, outdir);
+        c.pstats["eclipsestate.eq_throws_on_original"] = so::eqThrowsOnOriginal();
         std::ofstream f(outdir + "/prop_stats.json");
         f << "{\n  \"checked\": " << plog.checked << ",\n  \"failed\": " << plog.failed;
         for (auto& kv : c.pstats) f << ",\n  \"" << kv.first << "\": " << kv.second;
